@@ -52,13 +52,20 @@ def noteWrite (o : WOut) (r : WRes IW) : WOut :=
              endp := some r.pos }
   else o
 
+/-- `if err1 != nil { if <guard> { err = … }; break }`: is a failing `jrnl.Write` iteration reported? The guard in the source
+is `n <= 0` (regenerated fact `writeErrGuardIsNLeZero`) — and `journal.Write` returns `n = 0` whenever it returns an error, so
+every failing iteration is reported; the other shape the extractor knows, `!weInit`, reports only a failure that precedes
+the first successful iteration. -/
+def errGuard (o1 : WOut) (r : WRes IW) : Bool :=
+  if Generated.C01.writeErrGuardIsNLeZero then r.n == 0 else o1.start.isNone
+
 /-- the `for { … }` loop of `Service.Write` -/
 def serviceWriteLoop (maxSize : Nat) : Nat → Journal → List Rec → IW → WOut → Journal × WOut
   | 0, j, _, _, o => (j, { o with err := true })
   | fuel+1, j, recs, iw, o =>
     let r := journalWrite maxSize IW.see j recs iw
     let o1 := noteWrite o r
-    if r.err then (r.j, { o1 with err := r.n == 0 })
+    if r.err then (r.j, { o1 with err := errGuard o1 r })
     else
       match r.rest with
       | [] => (r.j, o1)                                   -- iw.Get → io.EOF → break
@@ -66,6 +73,32 @@ def serviceWriteLoop (maxSize : Nat) : Nat → Journal → List Rec → IW → W
 
 def serviceWrite (maxSize : Nat) (j : Journal) (recs : List Rec) : Journal × WOut :=
   serviceWriteLoop maxSize (recs.length + 1) j recs {} {}
+
+/-- **The loop in an environment with faults**: before an iteration's `jrnl.Write` the environment may make it fail with
+nothing written (`faultAt written journal`: the next chunk cannot be created — out of descriptors, directory gone —, or the
+context/chunk was closed); `written` is the number of records of this batch stored so far. `journal.Write` then returns
+`(0, Pos{}, err)` and leaves the journal as it is. -/
+def serviceWriteLoopF (faultAt : Nat → Journal → Bool) (maxSize : Nat) :
+    Nat → Nat → Journal → List Rec → IW → WOut → Journal × WOut
+  | 0, _, j, _, _, o => (j, { o with err := true })
+  | fuel+1, w, j, recs, iw, o =>
+    let r : WRes IW := if faultAt w j then ⟨j, 0, (0, 0), recs, iw, true⟩ else journalWrite maxSize IW.see j recs iw
+    let o1 := noteWrite o r
+    if r.err then (r.j, { o1 with err := errGuard o1 r })
+    else
+      match r.rest with
+      | [] => (r.j, o1)
+      | x :: _ => serviceWriteLoopF faultAt maxSize fuel (w + r.n) r.j r.rest (r.st.see x) o1
+
+def serviceWriteF (faultAt : Nat → Journal → Bool) (maxSize : Nat) (j : Journal) (recs : List Rec) : Journal × WOut :=
+  serviceWriteLoopF faultAt maxSize (recs.length + 1) 0 j recs {} {}
+
+/-- fault pattern "the context is cancelled when record `c` is fetched": every `jrnl.Write` that starts after that fails -/
+def faultCancelAt (c : Nat) : Nat → Journal → Bool := fun w _ => decide (1 ≤ w ∧ c ≤ w)
+
+/-- fault pattern "no new chunk can be created" (descriptors exhausted): fails whenever a new chunk is needed -/
+def faultNoNewChunk (maxSize : Nat) : Nat → Journal → Bool :=
+  fun _ j => match j.getLast? with | none => true | some c => decide (c.size ≥ maxSize)
 
 /-- what `iwrapper.Get` hands to the journal for one event -/
 def recOf (e : WireRT.Event) : Rec := ⟨WireRT.tsInt e.ts, e.marshal⟩
